@@ -50,9 +50,10 @@ Ops2(x, y) ==
 
 OK(t) == WellFormed(t) /\ FnKindOK(t, FALSE)
 
-(* the seeded slice of a bulk set (all of it when Keep = 1) *)
-Sample(S) == IF Keep = 1 THEN S
-             ELSE LET Q == SetToSeq(S) IN {Q[i] : i \in {j \in 1..Len(Q) : (j + Seed) % Keep = 0}}
+(* Seeded slices of the bulk sets (everything when Keep = 1).  The slice is cut by arithmetic on the POSITIONS of  *)
+(* the components (tree, skeleton, operator) in their fixed orders, so the product is never built; the multipliers  *)
+(* are primes larger than any Keep, so every component value occurs in the slice with the same frequency.            *)
+Hit(i, j, k) == (i * 7919 + j * 104729 + k * 611953 + Seed) % Keep = 0
 
 Mk1(X) == {t \in UNION {Ops1(x) : x \in X} : OK(t)}
 Mk2(X, W) == {t \in UNION {Ops2(x, w) : x \in X, w \in W} : OK(t)}
@@ -78,8 +79,14 @@ Core(p) == {t \in T1(p) :
 T2(p, full) ==
   LET A == IF full THEN T1(p \o "0") ELSE Core(p \o "0")
       B == IF full THEN T1(p \o "1") ELSE Core(p \o "1") IN
-  LET AS == SetToSeq(A) As == {AS[i] : i \in {j \in 1..Len(AS) : j % NShards = Shard}} IN
-  Mk1(As) \cup Mk2(As, B)
+  LET AS == SetToSeq(A) BS == SetToSeq(B)
+      Mine == {j \in 1..Len(AS) : j % NShards = Shard}
+      As == {AS[i] : i \in Mine} IN
+  IF Keep = 1 THEN Mk1(As) \cup Mk2(As, B)
+  ELSE \* the seeded slice over (left child, right child, operator) positions
+       {t \in UNION {LET O == SetToSeq(Ops2(AS[q[1]], BS[q[2]])) IN {O[k] : k \in {n \in 1..Len(O) : Hit(q[1], q[2], n)}}
+                      : q \in Mine \X (1..Len(BS))} : OK(t)}
+       \cup {t \in UNION {LET O == SetToSeq(Ops1(AS[i])) IN {O[k] : k \in {n \in 1..Len(O) : Hit(i, 0, n)}} : i \in Mine} : OK(t)}
 
 (***************************************************************************)
 (* Spines: a hazard leaf at the far left (right) end of a chain of          *)
@@ -269,6 +276,10 @@ Admissible(t, n) ==
 (* The case sets.                                                          *)
 (***************************************************************************)
 On(S, names) == {[t |-> t, sk |-> n] : t \in S, n \in names}
+SampleOn(S, names) ==
+  IF Keep = 1 THEN On(S, names)
+  ELSE LET T == SetToSeq(S) N == SetToSeq(names) IN
+       {[t |-> T[q[1]], sk |-> N[q[2]]] : q \in {x \in (1..Len(T)) \X (1..Len(N)) : Hit(x[1], x[2], 0)}}
 Adm(C) == {c \in C : Admissible(c.t, c.sk)}
 
 (* (an operator WITH a parameter: TLC evaluates zero-arity constant definitions eagerly *)
@@ -277,7 +288,7 @@ CasesOf(Family_) ==
   CASE Family = "expr" ->
          \* Size 1: depth <= 1 incl. special leaves; 2: depth <= 2 reduced children; 3: depth <= 2 full children
          \* fixed: depth <= 1 (shard 0); bulk: depth 2
-         Adm(On((IF Shard = 0 THEN T1("a") \cup T1s("a") ELSE {}) \cup (IF Size >= 2 THEN Sample(T2("a", Size >= 3)) ELSE {}), {"exprstmt"}))
+         Adm(On((IF Shard = 0 THEN T1("a") \cup T1s("a") ELSE {}) \cup (IF Size >= 2 THEN T2("a", Size >= 3) ELSE {}), {"exprstmt"}))
     [] Family = "spine" ->
          \* fixed: the start-restricted leaves under every single left-edge operator (and the classic ones to Size - 1), the gluing
          \* families one level shorter plus all prefix-operator chains and `a < !--b`, all link chains; bulk: everything at full length
@@ -285,22 +296,22 @@ CasesOf(Family_) ==
              \cup On(GlueTrees(Size - 1) \cup PrefixChain({Id("b"), <<"re">>, <<"num", "1">>}, Size)
                      \cup {<<"bin", "<", Id("a"), <<"un", "!", <<"upd", "--", "pre", Id("b")>>>>>>}, {"exprstmt"})
              \cup On(LinkChain({Id("a")}, Size), {"exprstmt"})
-             \cup Sample(UNION {On(LeftSpineX({pr[1]}, Size), {pr[2]}) : pr \in StartPairs}
-                         \cup On(GlueTrees(Size), {"exprstmt"})))
+             \cup UNION {SampleOn(LeftSpineX({pr[1]}, Size), {pr[2]}) : pr \in StartPairs}
+             \cup SampleOn(GlueTrees(Size), {"exprstmt"}))
     [] Family = "mix" ->
          \* the `in` leaf under chains of forwarding operators in every kind of for-init (and as a plain statement: no
          \* parentheses may be lost or invented there); the start-restricted leaves under the same chains.
          \* fixed: every chain of <= 1 operator, every chain of 2 core operators; bulk: up to Size operators of all classes
          Adm(On(Mix(InLeaves, FALSE, 1), ForInitSkels \cup {"exprstmt"})
-             \cup On(Mix(InLeaves, TRUE, 2), {"forinit", "forletinit", "exprstmt"})
+             \cup On(Mix(InLeaves, TRUE, 2), {"forinit", "forletinit"})
              \cup UNION {On(Mix({pr[1]}, FALSE, 1), {pr[2]}) : pr \in MixStartPairs}
-             \cup Sample(On(Mix(InLeaves, FALSE, 2) \cup (IF Size >= 3 THEN Mix(InLeaves, TRUE, 3) ELSE {}), ForInitSkels \cup {"exprstmt", "forin_rhs", "arrowbody"})
-                         \cup UNION {On(Mix({pr[1]}, FALSE, 2), {pr[2]}) : pr \in MixStartPairs}))
+             \cup SampleOn(Mix(InLeaves, FALSE, 2) \cup (IF Size >= 3 THEN Mix(InLeaves, TRUE, 3) ELSE {}), ForInitSkels \cup {"exprstmt", "forin_rhs", "arrowbody"})
+             \cup UNION {SampleOn(Mix({pr[1]}, FALSE, 2), {pr[2]}) : pr \in MixStartPairs})
     [] Family = "rand" -> Adm(On(RandTrees(Size), {"exprstmt"}))
     [] Family = "skel" ->
          \* fixed: one tree per level class and restricted leaf in every skeleton; bulk: all depth <= 1 trees
          Adm(On(SkelCore, SkelNames)
-             \cup Sample(On(T1("a") \cup SpecialLeaves \cup (IF Size >= 2 THEN Mk1(SpecialLeaves) ELSE {}), SkelNames)))
+             \cup SampleOn(T1("a") \cup SpecialLeaves \cup (IF Size >= 2 THEN Mk1(SpecialLeaves) ELSE {}), SkelNames))
 
 ASSUME Family \in {"expr", "spine", "mix", "skel", "rand"}
 
